@@ -23,12 +23,12 @@ func (v *Verifier) libSpecCall(x *Exec, env *Env, e *SCall) (Value, bool) {
 	sel := -1
 	if i := strings.LastIndex(fun, "_"); i > 0 && i == len(fun)-2 && fun[i+1] >= '0' && fun[i+1] <= '9' {
 		// F_0(args), F_1(args): the i-th result of a functional routine with several results
-		if c0 := v.cs.Contracts[v.resolveLibName(fun[:i])]; c0 != nil && c0.Opts["functional"] != "" {
+		if c0 := v.cs.Contracts[v.resolveLibNameIn(x, env, fun[:i])]; c0 != nil && c0.Opts["functional"] != "" {
 			sel = int(fun[i+1] - '0')
 			fun = fun[:i]
 		}
 	}
-	key := v.resolveLibName(fun)
+	key := v.resolveLibNameIn(x, env, fun)
 	c := v.cs.Contracts[key]
 	if c == nil || c.Opts["functional"] == "" {
 		return nil, false
@@ -54,6 +54,28 @@ func (v *Verifier) libSpecCall(x *Exec, env *Env, e *SCall) (Value, bool) {
 		return tup[sel], true
 	}
 	return res, true
+}
+
+// resolveLibNameIn also tries the unqualified name in the current package.
+func (v *Verifier) resolveLibNameIn(x *Exec, env *Env, name string) string {
+	if !strings.Contains(name, ".") {
+		if env.pkg != nil {
+			if _, ok := v.cs.Contracts[env.pkg.Path()+"."+name]; ok {
+				return env.pkg.Path() + "." + name
+			}
+		}
+		if x.fn != nil && x.fn.Pkg != nil {
+			if k := x.fn.Pkg.Pkg.Path() + "." + name; v.cs.Contracts[k] != nil {
+				return k
+			}
+		}
+		for k := range v.cs.Contracts {
+			if strings.HasSuffix(k, "."+name) && strings.HasPrefix(k, "golang.org/x/perf/") && strings.Count(k[strings.LastIndex(k, "/")+1:], ".") == 1 {
+				return k
+			}
+		}
+	}
+	return v.resolveLibName(name)
 }
 
 func (v *Verifier) resolveLibName(name string) string {
@@ -114,14 +136,22 @@ func (x *Exec) functionalApp(key string, c *Contract, fn *ssa.Function, args []*
 		if len(bound) == 0 {
 			app = Atom(fname, x.ti.SortOf(rt))
 		}
-		env := &Env{x: x, vars: vars, heap: map[string]*Term{}, st: &State{heap: map[string]*Term{}}}
+		env := &Env{x: x, vars: vars, heap: map[string]*Term{}, st: &State{heap: map[string]*Term{}}, alloc: Atom("alloc0", SInt)}
+		if fn.Pkg != nil {
+			env.pkg = fn.Pkg.Pkg
+		}
 		if len(c.Results) > 0 && c.Results[0] != "" {
 			vars[c.Results[0]] = TV{app, rt}
 		}
 		vars["result"] = TV{app, rt}
 		body := []*Term{And(x.ti.WF(app, rt, nil)...)}
 		for _, e := range c.Ensures {
-			body = append(body, x.compileBool(env, e.Expr, e))
+			env.st = &State{heap: map[string]*Term{}}
+			t := x.compileBool(env, e.Expr, e)
+			if len(env.st.heap) > 0 {
+				continue // talks about memory: not part of the functional view
+			}
+			body = append(body, t)
 		}
 		ax := Implies(And(guards...), And(body...))
 		if len(bound) > 0 {
@@ -269,7 +299,10 @@ func (x *Exec) functionalAppN(key string, c *Contract, fn *ssa.Function, args []
 			}
 			vars[name] = TV{b, pt}
 		}
-		env := &Env{x: x, vars: vars, heap: map[string]*Term{}, st: &State{heap: map[string]*Term{}}}
+		env := &Env{x: x, vars: vars, heap: map[string]*Term{}, st: &State{heap: map[string]*Term{}}, alloc: Atom("alloc0", SInt)}
+		if fn.Pkg != nil {
+			env.pkg = fn.Pkg.Pkg
+		}
 		var body []*Term
 		var pats []*Term
 		for i := 0; i < n; i++ {
@@ -292,13 +325,21 @@ func (x *Exec) functionalAppN(key string, c *Contract, fn *ssa.Function, args []
 			}
 		}
 		for _, e := range c.Ensures {
-			body = append(body, x.compileBool(env, e.Expr, e))
+			env.st = &State{heap: map[string]*Term{}}
+			t := x.compileBool(env, e.Expr, e)
+			if len(env.st.heap) > 0 {
+				continue // talks about memory: not part of the functional view
+			}
+			body = append(body, t)
 		}
 		ax := Implies(And(guards...), And(body...))
 		if !ax.IsTrue() {
 			x.axioms = append(x.axioms, &Term{Op: "forall", Sort: SBool, Bound: bound, Args: []*Term{ax}, Pats: pats})
 		}
 		x.assumeNote("functional contract (result is a function of the arguments): " + key)
+		if len(c.Requires) > 0 {
+			x.assumeNote("the requires clauses of functional contract " + key + " are global invariants (established at initialisation, preserved by their only writers) and are not re-checked at call sites")
+		}
 	}
 	var out Tuple
 	for i := 0; i < n; i++ {
